@@ -171,7 +171,8 @@ package ratelimiter
 
 // The executor: an error from the limiter means the inner function is not invoked.
 //@ func (*executor).Apply$1
-//@   requires e != nil && e.rateLimiter != nil && e.config != nil && e.stats != nil && innerFn != nil && exec != nil
+//@   beforecall e.onRateLimitExceeded: assert [C14.user_callback_gets_copy] userCopy(callarg_0.ExecutionAttempt)
+//@   requires e != nil && e.rateLimiter != nil && e.config != nil && e.stats != nil && innerFn != nil && exec != nil && typeis(exec, *failsafe.execution)
 //@   ext ctx := reti(exec.Context, 1)
 //@   ext w := ret(e.stats.acquirePermits, 1)
 //@   ensures [C05.executor.one_permit] ncalls(e.stats.acquirePermits) == 1 && arg(e.stats.acquirePermits, 1, 0) == 1 && arg(e.stats.acquirePermits, 1, 1) == e.maxWaitTime
@@ -180,4 +181,4 @@ package ratelimiter
 //@   ensures [C05.executor.admitted] ncalls(innerFn) <= 1 && (ncalls(innerFn) == 1 ==> result == ret(innerFn, 1) && arg(innerFn, 1, 0) == exec && w != -1)
 //@   ensures [C16.ratelimiter.exceeded] (w == -1 && e.onRateLimitExceeded != nil ==> ncalls(e.onRateLimitExceeded) == 1) && (ncalls(innerFn) == 1 ==> ncalls(e.onRateLimitExceeded) == 0)
 //@   havoc
-//@   modifies calls(innerFn), calls(e.stats.acquirePermits), calls(e.onRateLimitExceeded), calls(exec.Context), calls(ctx.Done), calls(ctx.Err), canceled(ctx), calls(background().Done), calls(background().Err), canceled(background()), calls(exec.Canceled), calls(exec.LastError)
+//@   modifies calls(innerFn), calls(e.stats.acquirePermits), calls(e.onRateLimitExceeded), calls(exec.CopyWithResult), calls(exec.Context), calls(ctx.Done), calls(ctx.Err), canceled(ctx), calls(background().Done), calls(background().Err), canceled(background()), calls(exec.Canceled), calls(exec.LastError)
